@@ -162,7 +162,7 @@ class MagicMemoryRTL( Component ):
 
       for i in range(nports):
 
-        if s.req_stalls[i].send.val:
+        if s.req_stalls[i].send.val & s.req_stalls[i].send.rdy:
 
           # Dequeue memory request message
 
